@@ -551,7 +551,7 @@ def gen_num(draw, schema, ctx, depth=0):
         other = _lit(_sample(draw, [0, -1, {"nan": 1}])) if draw(st.booleans()) else _col(_sample(draw, nums))
         return {"e": _sample(draw, ["where", "mask"]), "x": x, "cond": cond, "other": other}, "float"
     if k == "astype":
-        tgt = _sample(draw, ASTYPE[xc])
+        tgt = _sample(draw, [t for t in ASTYPE[xc] if not (ctx.get("no_float32") and t == "float32")])
         return {"e": "meth", "x": x, "m": "astype", "args": [tgt]}, DT2CLS.get(tgt, "other")
     if k == "map":
         n = _sample(draw, cols_of(schema, NUMPY_NUM))
@@ -829,7 +829,7 @@ def gen_frame_op(draw, schema, ctx, last):
         if not cs:
             return {"op": "project", "cols": names}, schema, False
         chosen = subset(cs)[:2]
-        dt = [[n, _sample(draw, ASTYPE[d[n]])] for n in chosen]
+        dt = [[n, _sample(draw, [t for t in ASTYPE[d[n]] if not (ctx.get("no_float32") and t == "float32")])] for n in chosen]
         m = dict(dt)
         return {"op": "astype", "dtypes": {"dict": dt}}, [[n, (DT2CLS.get(m[n], "other") if n in m else c)] for n, c in schema], False
     if k == "fillna":
